@@ -137,6 +137,11 @@ def gate():
 MODES = ("disabled", "auto", "teleop", "test")
 
 
+class RobotStuck(HarnessError):
+    """the robot thread neither sleeps nor ends (it may be spinning); the lab decides whether the code under
+    test is to blame (e.g. a fault that should have ended the program was swallowed and is re-raised forever)"""
+
+
 class RobotDriver:
     HANG_S = 20.0
 
@@ -158,6 +163,7 @@ class RobotDriver:
         self.thread = threading.Thread(target=self._main, daemon=True, name="robot")
         self.ended = False
         self.pokes = 0
+        self.progress = None  # optional callable: number of callbacks logged so far
 
     def _main(self):
         try:
@@ -175,11 +181,14 @@ class RobotDriver:
     def quiesce(self, seen):
         """block until the robot thread waits for its next alarm (or has ended)"""
         deadline = time.time() + self.HANG_S
+        p0 = self.progress() if self.progress else 0
         with self.g.cv:
             while self.g.entries == seen and not self.ended:
                 left = deadline - time.time()
                 if left <= 0:
-                    raise HarnessError("robot thread neither reached the next wait nor ended within %.0fs" % self.HANG_S)
+                    raise RobotStuck("robot thread neither reached the next wait nor ended within %.0fs" % self.HANG_S)
+                if self.progress and self.progress() - p0 > 20000:
+                    raise RobotStuck("robot thread keeps running callbacks (more than 20000 since the last step) without ever waiting for the next period")
                 if not self.g.cv.wait(min(left, 0.05)):
                     # A wake-up of the simulated notifier can get lost when several asynchronous steps
                     # follow each other closely (observed about once in 10^3 chunked cases).  Waking the
